@@ -357,6 +357,10 @@ impl Cartesian<'_> {
             return Err("Collision detected".into());
         }
 
+        if !self.include_linear_interpolation {
+            trace.retain(|step| !step.flags.contains(PathFlags::LIN_INTERP));
+        }
+
         Ok(trace)
     }
 
